@@ -89,6 +89,39 @@ def check(case) -> list[Fail]:
         interp.ONE_SHOT[0] = False
     if dump(x2._to_serial_root()) != e or dump(x2.type_()._to_serial_root()) != got_t:
         fails.append(Fail("iterable-arguments", k, "value built from one-shot iterables differs from the one built from lists"))
+    # one value object given twice as a field counts twice
+    if k in ("tuple", "some", "left", "right") and v.get("vs"):
+        x0 = mk_value(v["vs"][0])
+        t0 = dump(x0.type_()._to_serial_root())
+        y2 = {"tuple": lambda: val.Tuple(x0, x0), "some": lambda: val.Some(x0, x0), "left": lambda: val.Left([x0, x0], []), "right": lambda: val.Right([], [x0, x0])}[k]()
+        rows2 = [[dump(t._to_serial_root()) for t in r] for r in y2.type_().variant_rows]
+        if rows2[y2.tag] != [t0, t0] or len(y2.vals) != 2:
+            fails.append(Fail("helper", k + ":same-object-twice", f"variant row {rows2[y2.tag]} for two fields of type {t0}"[:300]))
+    # a function value whose body is finished only later: loading it too early fails and changes nothing
+    if k == "function" and not v.get("reqs"):
+        from hugr.ops import IncompleteOp
+
+        body = Dfg(*[mk_type(t) for t in v["i"]])
+        d3 = Dfg()
+        cnode = d3.add_const(val.Function(body.hugr))
+        try:
+            d3.load(cnode)
+            early = None
+        except IncompleteOp as e:
+            early = e
+        except Exception as e:  # noqa: BLE001
+            early = e
+            fails.append(Fail("load", "function:unfinished-body-wrong-error", f"{type(e).__name__}"))
+        inner = body.add_op(ops.Custom("body", tys.FunctionType([mk_type(t) for t in v["i"]], [mk_type(t) for t in v["o"]]), extension="gen.ext"), *body.inputs())
+        body.set_outputs(*inner.outputs())
+        d3.load(val.TRUE)
+        try:
+            l3 = d3.load(cnode)
+            got3 = dump(d3.hugr[l3].op.type_._to_serial_root())
+            if got3 != want_t or not isinstance(d3.hugr[cnode].op, ops.Const):
+                fails.append(Fail("load", "function:after-an-early-attempt", f"LoadConst of {got3} for a constant of type {want_t}"[:300]))
+        except Exception as e:  # noqa: BLE001
+            fails.append(Fail("load", "function:constant-lost-after-an-early-attempt", f"{type(e).__name__}: {e}"[:200]))
     # Left / Right compute their type from the values given: the list the caller passed stays the caller's
     if k in ("left", "right"):
         mine = [mk_value(u) for u in v["vs"]]
